@@ -26,7 +26,7 @@ def case_fn(case):
 
 
 def families(tier, seed):
-    fam = gen.c01_structured() + gen.c01_random(seed, 24 if tier == "quick" else 300)
+    fam = gen.c01_structured() + gen.c01_random(seed, 24 if tier == "quick" else 1500)
     cases = []
     for tag, feats, model in fam:
         for vec in (False, True):
